@@ -15,10 +15,12 @@
 (*   VideoRule  integers: pixels, bpp_milli, fps, dur_s, and the derived bitrate_bps, data_bit, reqdur_s    *)
 (*   Approx     a derived parameter (lhs) and the rule evaluated on the inputs read from the objects (rhs), *)
 (*              both as 7-significant-digit integers with a common exponent                                  *)
+(*   Rule       a derived parameter (got) and the named inputs of its rule (f), as 4-digit decimal floats: *)
+(*              TLC evaluates the rule itself (RuleValue) and requires agreement within 1 %                 *)
 (*   Twin       differences between the builder model and the plain model carrying the derived parameters    *)
 (*   Refresh    differences between a live builder model after an input edit and a rebuilt one               *)
 (***************************************************************************)
-EXTENDS Integers, Sequences, FiniteSets, TLC, Json
+EXTENDS Integers, Sequences, FiniteSets, TLC, Json, EFDecimal
 CONSTANTS TraceFile
 Events == ndJsonDeserialize(TraceFile)
 N == Len(Events)
@@ -32,6 +34,16 @@ Abs(x) == IF x < 0 THEN -x ELSE x
 VideoBitrate(pixels, bppMilli, fps) == (pixels * bppMilli * fps) \div 1000          \* bit/s
 VideoData(bitrate, durS) == bitrate * durS                                          \* bit
 
+(* the builders' rules, evaluated by TLC on the inputs read from the real objects *)
+RuleValue(rule, f) ==
+    CASE rule = "genai-token-weights" -> DMul(f.tokens, f.bits_per_token)
+      [] rule \in {"genai-data-transferred", "genai-data-stored"} -> DAdd(DInt(800000), DMul(f.tokens, f.bits_per_token))     \* 100 kB
+      [] rule = "genai-duration" -> DMul(f.tokens, DAdd(DMul(f.alpha, f.active), f.beta))
+      [] rule = "genai-gpus" -> DDiv(DMul(DMul(f.factor, f.active), f.bits), f.ram_per_gpu)
+      [] rule = "genai-base-ram" -> DMul(DMul(f.factor, f.total), f.bits)
+      [] rule = "video-cpu" -> DDiv(DMul(f.cost, f.bitrate), D(8, 9))                       \* cost per (GB/s), bitrate in bit/s
+      [] rule = "video-data" -> DMul(DMul(DMul(f.pixels, f.bpp), f.fps), f.duration)
+
 Check(e) ==
     CASE e.ev = "VideoRule" ->
            /\ IF e.bitrate_bps # VideoBitrate(e.pixels, e.bpp_milli, e.fps)
@@ -42,6 +54,9 @@ Check(e) ==
            /\ IF e.ram_mb # e.buffer_mb THEN Fail(e, "video-ram-rule", <<e.ram_mb, e.buffer_mb>>) ELSE TRUE
       [] e.ev = "Approx" ->
            IF Abs(e.lhs - e.rhs) > 3 THEN Fail(e, "derived-parameter-rule:" \o e.rule, <<"code", e.lhs, "rule", e.rhs, "x10^", e.exp>>) ELSE TRUE
+      [] e.ev = "Rule" ->
+           IF ~DClose(e.got, RuleValue(e.rule, e.f), 100)
+           THEN Fail(e, "derived-parameter-rule:" \o e.rule, <<"code", e.got, "rule", RuleValue(e.rule, e.f)>>) ELSE TRUE
       [] e.ev = "Twin" ->
            IF e.differs # <<>> THEN Fail(e, "builder-model-differs-from-plain-model:" \o e.builder, e.differs) ELSE TRUE
       [] e.ev = "Refresh" ->
